@@ -276,6 +276,7 @@ impl Property for C14 {
         }
         let fail_at = if rng.chance(1, 6) { Some(rng.below(n as u64) as usize) } else { None };
         let mut end_used = [false; 2];
+        let mut alias_used = false;
         for i in 0..n {
             if Some(i) == fail_at {
                 let id = *rng.pick(&[0u32, 1, 103, 105, 112, 114, 0x68_00, 0x8000_0068, 0xffff_ffff, 104 << 8, 0x1_0068, 0x1_0071, 0x168, 0x171, 0x6800_0000, 0x7100_0000, 0x0100_0068]);
@@ -306,7 +307,12 @@ impl Property for C14 {
                     };
                     let h = rng.below(nh as u64) as usize;
                     let ram_end = rng.chance(1, 2);
-                    if rng.chance(1, 6) && !end_used[ram_end as usize] {
+                    if rng.chance(1, 10) && (1..64).contains(&v) && !alias_used {
+                        // the block's address word occupies the slot the call saves ER5 to; ER5 holds something else
+                        alias_used = true;
+                        blocks.push(Block::LoadEr5(rng.u32()));
+                        blocks.push(Block::SetHandlerAlias { vector: v as u8, handler: h });
+                    } else if rng.chance(1, 6) && !end_used[ram_end as usize] {
                         // the argument block {vector, address} ends at the last byte of the region
                         end_used[ram_end as usize] = true;
                         blocks.push(Block::SetHandlerAt { vector: v, handler: h, dram_end: !ram_end });
@@ -355,7 +361,7 @@ impl Property for C14 {
             sub_delay: 1,
             init_ccr: Some(rng.u8() & 0x7f),
             stack_off: if rng.chance(1, 2) { 0 } else { 4 * rng.below(64) as u16 },
-            exit_style: if rng.chance(1, 2) { 0 } else { rng.below(5) as u8 },
+            exit_style: if rng.chance(1, 2) { 0 } else { rng.below(9) as u8 },
         };
         let est = super::c10::estimate_iters(&guest);
         let cfg = SysCfg { wait_start: false, clock: gen_clock_model(rng), clock_seed: rng.next_u64(), step_cap: est * 4 + 10_000, print_msgs: rng.chance(1, 8), print_opcode: false };
@@ -422,6 +428,11 @@ impl Property for C14 {
                     for b in scn.guest.blocks.iter().take(*block) {
                         if let Block::SetHandler { vector, handler } | Block::SetHandlerAt { vector, handler, .. } = b {
                             if *vector == *v as u32 && *handler < g.handlers.len() {
+                                ok = true;
+                            }
+                        }
+                        if let Block::SetHandlerAlias { vector, handler } = b {
+                            if *vector == *v && *handler < g.handlers.len() {
                                 ok = true;
                             }
                         }
